@@ -825,9 +825,98 @@ def main(mod, argv):
             return mod.replay(ctx, data)
         print(json.dumps(data, indent=1)[:4000])
         return 0
+    if os.environ.get("VERIF_OPT_CHILD"):
+        return _opt_child_main(ctx)
+    child = _spawn_opt_child(ctx)
     try:
         proof_obligations(ctx)
         mod.run(ctx)
     except Exception as e:  # a crashing harness must not look like a pass
         ctx.mismatches.append({"what": "check crashed: %r" % (e,), "traceback": traceback.format_exc()[-3000:]})
+    _join_opt_child(ctx, child)
     return report(ctx)
+
+
+# -- second pass under `python -O` ------------------------------------------------------------------------------
+# The correspondence and the direct oracle of every check run a second time in a child interpreter started with -O
+# (PYTHONOPTIMIZE=1), concurrently with the main pass: `assert` statements and `if __debug__:` blocks of artap are
+# compiled away there, so behaviour that hides in an assert (a state update written inside a sanity check) shows up
+# as an ordinary failing input.  The child skips the proof obligations (they do not depend on the interpreter),
+# writes its failures to a file, and the parent merges them (tagged with the environment) before reporting.
+_OPT_CODE = ("import sys; from harness import core; import importlib; "
+             "m = importlib.import_module('harness.%s'); sys.exit(core.main(m, sys.argv[1:]))")
+
+
+def _spawn_opt_child(ctx):
+    if os.environ.get("VERIF_NO_OPT_PASS") or not getattr(ctx.mod, "OPT_PASS", True):
+        return None
+    cwork = ctx.work.rstrip("/") + "_optO"
+    shutil.rmtree(cwork, ignore_errors=True)
+    os.makedirs(cwork, exist_ok=True)
+    env = dict(os.environ, VERIF_OPT_CHILD="1", VERIF_WORK=cwork, VERIF_NO_EVIDENCE="1", PYTHONOPTIMIZE="1")
+    log = open(os.path.join(cwork, "child.log"), "w")
+    cmd = [sys.executable, "-O", "-c", _OPT_CODE % ctx.mod.__name__.split(".")[-1],
+           "--tier", ctx.tier, "--seed", str(ctx.seed)]
+    try:
+        proc = subprocess.Popen(cmd, env=env, cwd=VERIF, stdout=log, stderr=subprocess.STDOUT)
+    except OSError as e:
+        ctx.notes.append("second pass under python -O could not be started: %r" % (e,))
+        return None
+    return proc, cwork, log
+
+
+def _opt_child_main(ctx):
+    res = {"crashed": None}
+    try:
+        rc, log = build(only=targets_of(ctx.mod))     # waits for / shares the parent's locked incremental build
+        ctx.mod.run(ctx)
+    except Exception as e:
+        res["crashed"] = "%r\n%s" % (e, traceback.format_exc()[-3000:])
+    res.update({"mismatches": ctx.mismatches[:200], "oracle_failures": ctx.oracle_failures[:500],
+                "n_mismatches": len(ctx.mismatches), "n_oracle_failures": len(ctx.oracle_failures),
+                "evaluations": ctx.evaluations, "distinct": len(ctx.distinct), "seconds": time.time() - ctx.t0})
+    with open(os.path.join(os.environ["VERIF_WORK"], "result.json"), "w") as f:
+        json.dump(res, f, default=str)
+    return 0
+
+
+def _join_opt_child(ctx, child):
+    if child is None:
+        return
+    proc, cwork, log = child
+    env_tag = "python -O (PYTHONOPTIMIZE=1: assert statements and __debug__ blocks compiled away)"
+    try:
+        proc.wait(timeout=max(1800, 3 * (time.time() - ctx.t0)))
+    except subprocess.TimeoutExpired:
+        proc.kill()
+        ctx.notes.append("second pass under python -O did not finish in time and was dropped")
+        log.close()
+        shutil.rmtree(cwork, ignore_errors=True)
+        return
+    log.close()
+    try:
+        res = json.load(open(os.path.join(cwork, "result.json")))
+    except Exception:
+        tail = open(os.path.join(cwork, "child.log")).read()[-2000:]
+        ctx.mismatches.append({"what": "the pass under python -O crashed before writing its result", "environment": env_tag,
+                               "log": tail})
+        shutil.rmtree(cwork, ignore_errors=True)
+        return
+    if res.get("crashed"):
+        ctx.mismatches.append({"what": "the pass under python -O crashed", "environment": env_tag, "traceback": res["crashed"]})
+    for m in res.get("mismatches", []):
+        if isinstance(m, dict):
+            m["environment"] = env_tag
+        ctx.mismatches.append(m)
+    for f in res.get("oracle_failures", []):
+        if isinstance(f, dict):
+            f["environment"] = env_tag
+        ctx.oracle_failures.append(f)
+    ctx.evaluations += int(res.get("evaluations", 0))
+    ctx.extra["python_O_pass"] = {"cases": res.get("evaluations"), "distinct": res.get("distinct"),
+                                  "correspondence_mismatches": res.get("n_mismatches"),
+                                  "oracle_failures": res.get("n_oracle_failures"), "seconds": round(res.get("seconds", 0), 1)}
+    ctx.notes.append("the correspondence and the direct oracle also ran in a second interpreter under %s: %s cases, "
+                     "%s correspondence mismatches, %s oracle failures" % (env_tag, res.get("evaluations"),
+                                                                           res.get("n_mismatches"), res.get("n_oracle_failures")))
+    shutil.rmtree(cwork, ignore_errors=True)
